@@ -53,11 +53,13 @@ double __sym_new_double(const char* name) {
   if (it == g_double.end()) { printf("REPLAY-NOTE input %s not in model, using 0\n", name); return 0.0; }
   return it->second;
 }
+double __sym_new_positive(const char* name) { double v = __sym_new_double(name); if (!(v > 0)) __sym_prune(); return v; }
 int __sym_choose(const char* name, int lo, int hi) {
   ensure(); auto it = g_choice.find(name);
   if (it == g_choice.end()) { printf("REPLAY-DIVERGED choice %s not recorded\n", name); exit(3); }
   return it->second;
 }
+void __sym_prune(void);
 void __sym_fail(const char* msg) { printf("REPLAY-FAIL %s\n", msg); fflush(stdout); _Exit(1); }
 void __sym_prune(void) { printf("REPLAY-PRUNED\n"); fflush(stdout); _Exit(2); }
 void __sym_check(int cond, const char* msg) { if (!cond) __sym_fail(msg); }
